@@ -21,7 +21,8 @@ MC_BASE = {
     'fo':       base('fo', 1, 0, 3, 2, 2, front=True),
     'mb':       base('mb', 2, 2, 3, 2, 3),
     'mb_perp':  base('mb', 2, 2, 2, 2, 2, maxitems=2, perpetual=True),
-    'mu':       base('mu', 1, 0, 3, 2, 3),
+    'mu':       base('mu', 1, 0, 3, 2, 2),
+    'mu3':      base('mu', 1, 0, 3, 2, 3),                        # thorough (4 M states)
     'mu_perp':  base('mu', 1, 0, 3, 2, 2, maxitems=2, perpetual=True),
     'bu':       base('bu', 2, 0, 3, 2, 2),
     'bo':       base('bo', 2, 0, 3, 2, 2),
@@ -32,28 +33,29 @@ MC_BASE = {
     'tja':      base('tja', 3, 3, 3, 2, 2),
 }
 
-def gen_job(name, basecfg, every_quick, tails=('drain', 'quiet', 'drop'), consts=None):
+def gen_job(name, basecfg, target_quick=1200, tails=('drain', 'quiet', 'drop'), consts=None):
     c = {'Budget': 61}
     c.update(consts or {})
-    return {'name': 'cover_' + name, 'base': basecfg, 'consts': c, 'mode': 'cover', 'every_quick': every_quick,
-            'every_thorough': 1, 'tails': list(tails)}
+    return {'name': 'cover_' + name, 'base': basecfg, 'consts': c, 'mode': 'cover', 'target_quick': target_quick,
+            'target_thorough': 0, 'tails': list(tails)}
 
-# state-cover generators: one TLC behaviour per distinct poll-boundary state of the small model, executed on the real crate
+# state-cover generators: one TLC behaviour per distinct poll-boundary state of the small model, executed on the real
+# crate (quick: a seeded sample of about target_quick behaviours x tails; thorough: all of them)
 GEN = {
-    'fub': gen_job('fub', 'fub', 4),
-    'fub_init': gen_job('fub_init', 'fub_init', 4),
-    'fu': gen_job('fu', 'fu', 10),
-    'fob': gen_job('fob', 'fob', 20),
-    'fo': gen_job('fo', 'fo', 60),
-    'mb': gen_job('mb', 'mb', 30),
-    'mu': gen_job('mu', 'mu', 30),
-    'bu': gen_job('bu', 'bu', 8),
-    'bo': gen_job('bo', 'bo', 8),
-    'tbu': gen_job('tbu', 'tbu', 40),
-    'tbo': gen_job('tbo', 'tbo', 40),
-    'fe': gen_job('fe', 'fe', 8),
-    'ja': gen_job('ja', 'ja', 2, tails=('drain', 'repoll', 'drop')),
-    'tja': gen_job('tja', 'tja', 3, tails=('drain', 'repoll', 'drop')),
+    'fub': gen_job('fub', 'fub', 2500),
+    'fub_init': gen_job('fub_init', 'fub_init', 1500),
+    'fu': gen_job('fu', 'fu', 1500),
+    'fob': gen_job('fob', 'fob', 1500),
+    'fo': gen_job('fo', 'fo', 1500, consts={'MaxWakes': 0}),
+    'mb': gen_job('mb', 'mb', 1500, consts={'MaxPolls': 2}),
+    'mu': gen_job('mu', 'mu', 1500),
+    'bu': gen_job('bu', 'bu', 1500),
+    'bo': gen_job('bo', 'bo', 1500),
+    'tbu': gen_job('tbu', 'tbu', 1200, consts={'MaxPolls': 1}),
+    'tbo': gen_job('tbo', 'tbo', 1200, consts={'MaxPolls': 1}),
+    'fe': gen_job('fe', 'fe', 1500),
+    'ja': gen_job('ja', 'ja', 1500, tails=('drain', 'repoll', 'drop')),
+    'tja': gen_job('tja', 'tja', 1500, tails=('drain', 'repoll', 'drop')),
 }
 
 def rnd(kind, size='small', profile='mix', nq=300, nt=3000, **kw):
